@@ -223,18 +223,39 @@ def stream_cases(rnd, n, tmp):
 
     cases = []
     P = RecordDescriptor("s/poison", [("dictlist", "dl"), ("string", "x")])
-    for si, recs0 in enumerate(gen.sample_streams(rnd, n, (1, 9))):
+    import contextlib
+    from flow.record.base import ignore_fields_for_comparison
+
+    seqs = gen.fixed_streams() + gen.sample_streams(rnd, n, (1, 9))
+    nfixed = len(gen.fixed_streams())
+    for si, recs0 in enumerate(seqs):
         # every third sequence contains a write that FAILS while packing the first record of a new type (its descriptor
         # has already been announced), followed by good records of that type: the failed record is not part of what was written
         plan = [(r, True) for r in recs0]
-        if si % 3 == 0:
+        if si % 3 == 0 and si >= nfixed:
             k = rnd.randint(0, len(plan))
             plan[k:k] = [(P([{"a": {1, 2}}], "bad", _generated=gen.GEN), False), (P([{"a": 1}], "good1", _generated=gen.GEN), True)]
             plan.append((P([], "good2", _generated=gen.GEN), True))
         recs = [r for r, ok in plan if ok]
         written = [obs_key(r) for r in recs]
-        for via in ("lowlevel", "path", "pathgz"):
-            c = {"kind": "stream", "via": via, "modelled": True, "n_written": len(recs), "n_read": -1, "order_ok": False, "all_identical": False, "frames": [], "hash_ok": False, "ref_decode_ok": False, "exc": "none",
+        # "+ignore": the same, written and read while a comparison-ignore setting is active (a de-duplicating copy loop):
+        # an option of record COMPARISON must not reach the encoding
+        vias = ("lowlevel", "path", "pathgz") + (("lowlevel+ignore", "path+ignore") if si < nfixed or si % 4 == 1 else ())
+        for via0 in vias:
+            via, _, opt = via0.partition("+")
+            cm = ignore_fields_for_comparison({"_generated", "a", "n", "path", "s"}) if opt else contextlib.nullcontext()
+            with cm:
+                c = _stream_case(via, via0, plan, recs, written, tmp, gen.fixed_streams_intent()[si] if si < nfixed else None)
+            cases.append(c)
+    return cases
+
+
+def _stream_case(via, via0, plan, recs, written, tmp, intent=None):
+    from flow.record import RecordReader, RecordStreamReader, RecordStreamWriter, RecordWriter
+
+    if True:
+        if True:
+            c = {"kind": "stream", "via": via0, "modelled": True, "n_written": len(recs), "n_read": -1, "order_ok": False, "all_identical": False, "frames": [], "hash_ok": False, "ref_decode_ok": False, "exc": "none",
                  "T": "varint", "islist": False, "cs": ["none"]}
             try:
                 if via == "lowlevel":
@@ -267,6 +288,9 @@ def stream_cases(rnd, n, tmp):
                 c["n_read"] = len(back)
                 c["order_ok"] = not (sorted(got) == sorted(written) and got != written)
                 c["all_identical"] = got == written
+                if intent is not None and [gen.names_of(r) for r in back] != intent:
+                    c["all_identical"] = False
+                    c["exc"] = "type names read back differ from the descriptors the records were created with: " + repr([gen.names_of(r) for r in back])[:120]
             except Exception as e:
                 c["exc"] = type(e).__name__ + ":" + str(e)[:80]
                 data = None
@@ -302,5 +326,4 @@ def stream_cases(rnd, n, tmp):
                 c["ref_decode_ok"] = len(recframes) == len(recs) and all(repr_eq(f, canon(r)) for f, r in zip(recframes, recs))
             except Exception as e:
                 c["exc2"] = type(e).__name__ + ":" + str(e)[:80]
-            cases.append(c)
-    return cases
+            return c
